@@ -933,7 +933,8 @@ W3_Ctl(a) ==
          n == st.cnt.allowed + 1
          reply == Stamp([k |-> "ctl.reply", req |-> rq.req, ans |-> "already"], Tick(st.clk)) IN
      IF od
-       THEN /\ Emit(<<Stamp([k |-> "pol.rballowed", n |-> n, src |-> "ondemand", ans |-> a], st.clk), reply>>)
+       \* (:484-489 the request is answered AlreadyRunning first, then the policy is asked)
+       THEN /\ Emit(<<reply, Stamp([k |-> "pol.rballowed", n |-> n, src |-> "ondemand", ans |-> a], st.clk)>>)
             /\ script' = script \o Ans("pol.rballowed", n, a)
             /\ st' = [st EXCEPT !.ctlq = Tail(@), !.ck.optSrc = "ondemand", !.clk = Tick(@), !.cnt.allowed = n,
                                 !.pc = IF a THEN "W9" ELSE "W3"]
